@@ -48,6 +48,18 @@ static GHOST: [StdUsize; 2] = [StdUsize::new(0), StdUsize::new(0)];
 static FREES: StdUsize = StdUsize::new(0);
 static DOUBLE_FREE: StdUsize = StdUsize::new(0);
 static GHOST_PANIC: StdBool = StdBool::new(false);
+/// length of the view that the conversion call in progress may have to copy (0 = no conversion in progress). An exactly
+/// sized align-1 allocation made meanwhile is the destination of that copy: the crate reads the shared buffer right after it,
+/// so the allocator performs a ghost *read* at that point of the program order (single-region programs only). A copy that was
+/// moved behind the release of the handle's reference is then not ordered before the deallocation - although no scheduling
+/// point lies between that release and the copy.
+static CONV_LEN: StdUsize = StdUsize::new(0);
+fn conv_begin(len: usize) {
+    CONV_LEN.store(len, SeqCst);
+}
+fn conv_end() {
+    CONV_LEN.store(0, SeqCst);
+}
 
 fn lock() {
     while LOCK.compare_exchange(false, true, SeqCst, SeqCst).is_err() {
@@ -82,6 +94,16 @@ unsafe impl GlobalAlloc for A {
             lg.overflow = true;
         }
         unlock();
+        let cl = CONV_LEN.load(SeqCst);
+        if cl != 0 && l.align() == 1 && l.size() == cl && GHOST[1].load(SeqCst) == 0 {
+            let gp = GHOST[0].load(SeqCst) as *const loom::cell::UnsafeCell<()>;
+            if !gp.is_null() {
+                let r = catch_unwind(AssertUnwindSafe(|| (*gp).with(|_| ())));
+                if r.is_err() {
+                    GHOST_PANIC.store(true, SeqCst);
+                }
+            }
+        }
         user
     }
     unsafe fn dealloc(&self, p: *mut u8, l: Layout) {
@@ -426,7 +448,9 @@ fn run_thread(tid: usize, ops: &[TOp], mut own: Vec<Hd>, mut muts: Vec<(BytesMut
                     ctx.use_bytes(&h, "before conversion to BytesMut");
                     let old_ptr = h.b.as_ptr() as usize;
                     let (expect, addr) = (h.expect, h.addr);
+                    conv_begin(h.b.len());
                     let r = if *op == TOp::TryIntoMut { h.b.try_into_mut() } else { Ok(BytesMut::from(h.b)) };
+                    conv_end();
                     match r {
                         Ok(mut m) => {
                             if &m[..] != &expect[..] {
@@ -456,7 +480,9 @@ fn run_thread(tid: usize, ops: &[TOp], mut own: Vec<Hd>, mut muts: Vec<(BytesMut
                 if let Some(h) = own.pop() {
                     ctx.use_bytes(&h, "before conversion to Vec");
                     let expect = h.expect;
+                    conv_begin(h.b.len());
                     let mut v: Vec<u8> = h.b.into();
+                    conv_end();
                     if &v[..] != &expect[..] {
                         panic!("C05,C01{}: Vec from Bytes holds {:02x?}, want {:02x?}", if v.iter().any(|&x| x == 0xDD) { ",C02,C03,C06" } else { "" }, &v[..], expect);
                     }
@@ -744,7 +770,9 @@ fn run_program(p: &Program) {
             if let Some(a) = main_handle.take() {
                 let h = hd(a, ctx.base, shared_off, main_len, ctx.tracked);
                 ctx.use_bytes(&h, "main before into Vec");
+                conv_begin(h.b.len());
                 let mut v: Vec<u8> = h.b.into();
+                conv_end();
                 if &v[..] != &DATA[shared_off..] {
                     panic!("C05,C01: main: Vec from Bytes holds {:02x?}", &v[..]);
                 }
